@@ -18,6 +18,8 @@ void feat_override(Store &st, const Fault &f) {
     unsigned n = orig + (r.chance(1, 3) ? 0 : r.below(24));
     if (n == 0) n = 1 + r.below(8);
     if (n > 80) n = 80;
+    const bool many = r.chance(1, 40);       // more feature bits than 256 words: 130..400 features, most of them without settings (a word each)
+    if (many) n = 130 + r.below(271);
     struct SF { u32 id; u16 flags, nameid; std::vector<std::pair<int, u16>> settings; };
     std::vector<SF> feats;
     std::set<u32> ids;
@@ -33,7 +35,7 @@ void feat_override(Store &st, const Fault &f) {
         else if (pattern == 1) { unsigned left = 32 - bitpos % 32; w = r.chance(1, 2) ? (left <= 16 ? left : 1 + r.below(16)) : (left < 16 ? left + 1 : 1 + r.below(16)); if (w > 16) w = 16; if (w == 0) w = 1; }
         else if (pattern == 2) w = r.chance(1, 2) ? 16 : 15;
         else w = 1 + r.below(5);
-        bool nosettings = r.chance(1, 9);
+        bool nosettings = many ? r.chance(9, 10) : r.chance(1, 9);
         if (!nosettings) {
             u32 maxv = w >= 16 ? (r.chance(1, 2) ? 0xFFFF : 0x8000 + r.below(0x7FFF)) : ((1u << (w - 1)) + r.below(1u << (w - 1)));
             const bool all_zero = r.chance(1, 10);     // every defined setting has the value 0 (a lone "Default"): the largest setting is 0, not "none defined"
